@@ -318,6 +318,7 @@ REPLAYERS = {
     'c19_exception': r_c19,
     'c19_transitivity': r_c19,
     'c19_reflexivity': r_c19,
+    'c19_eqhash': r_c19,
     'c06': r_c06,
     'xh': r_xh,
     'c04': r_c04,
